@@ -45,7 +45,7 @@ func envInt(k string, d int) int {
 	return d
 }
 
-func tier() string { return envOr("VERIF_TIER", "quick") }
+func tier() string   { return envOr("VERIF_TIER", "quick") }
 func thorough() bool { return tier() == "thorough" }
 
 // pick returns q in the quick tier and th in the thorough tier.
@@ -121,10 +121,10 @@ func (s *Stats) Eval(key string, nontrivial bool, sample func() any, labels ...s
 	}
 }
 
-func (s *Stats) Label(l string)          { s.mu.Lock(); s.Labels[l]++; s.mu.Unlock() }
-func (s *Stats) Add(k string, n int64)   { s.mu.Lock(); s.Extra[k] += n; s.mu.Unlock() }
-func (s *Stats) SetRule(r string)        { s.mu.Lock(); s.Rule = r; s.mu.Unlock() }
-func (s *Stats) Note(k, v string)        { s.mu.Lock(); s.Notes[k] = v; s.mu.Unlock() }
+func (s *Stats) Label(l string)           { s.mu.Lock(); s.Labels[l]++; s.mu.Unlock() }
+func (s *Stats) Add(k string, n int64)    { s.mu.Lock(); s.Extra[k] += n; s.mu.Unlock() }
+func (s *Stats) SetRule(r string)         { s.mu.Lock(); s.Rule = r; s.mu.Unlock() }
+func (s *Stats) Note(k, v string)         { s.mu.Lock(); s.Notes[k] = v; s.mu.Unlock() }
 func (s *Stats) Done(enum string, b bool) { s.mu.Lock(); s.Exhaustive[enum] = b; s.mu.Unlock() }
 func (s *Stats) Assume(a ...string) {
 	s.mu.Lock()
